@@ -18,8 +18,8 @@ def file(g, neg=False): return dict(glob=T(g), neg=neg)
 def link(p, neg=False): return dict(page=T(p), neg=neg)
 
 atoms = [
- A("o", True, kinds=["o"]), A("-", True, kinds=["-"]), A("x~", kinds=["x", "~"]), A("o<>", kinds=["o", "<", ">"]), A("-o", kinds=["-", "o"]),
- A("P1", True, prios=["P1"]), A("P0-3", prios=["P0", "P1", "P2", "P3"]), A("P2-9", prios=[f"P{i}" for i in range(2, 10)]), A("P9", prios=["P9"]),
+ A("o", True, kinds=["o"]), A("-", True, kinds=["-"]), A("x~", True, kinds=["x", "~"]), A("o<>", kinds=["o", "<", ">"]), A("-o", kinds=["-", "o"]),
+ A("P1", True, prios=["P1"]), A("P0-3", True, prios=["P0", "P1", "P2", "P3"]), A("P2-9", prios=[f"P{i}" for i in range(2, 10)]), A("P9", True, prios=["P9"]),
  A("+pj1", True, tags=[tag("projects", "pj1")]), A("!+pj1", True, tags=[tag("projects", "pj1", True)]),
  A("#ar1", True, tags=[tag("areas", "ar1")]), A("!#ar1", tags=[tag("areas", "ar1", True)]),
  A("@cx1", True, tags=[tag("contexts", "cx1")]), A("!@cx1", tags=[tag("contexts", "cx1", True)]),
